@@ -1321,6 +1321,6 @@ func classify(res *vkit.Result, op *Op, ro *outcome, lb, la int, unreads *int) {
 var Part = &vkit.Part[Case]{
 	Property: Property, Name: "differential",
 	Rule:  "rapid: a constructor (zero value | NewBuffer(bytes with spare capacity) | NewBufferString | NewSizedBuffer(k) vs a bytes.Buffer grown to k) and 1-80 operations out of Write, WriteString, WriteByte, WriteRune (ASCII, 2/3/4-byte, surrogates, negative, > MaxRune), Read(len 0..>Len), ReadByte, ReadRune (valid and invalid UTF-8 payload patterns), UnreadByte, UnreadRune, Next(n incl. > Len and negative), Truncate(n incl. invalid), Reset, Grow(n incl. negative and unallocatably large), ReadFrom(scripted reader: chunks below/at/above MinRead, (0,nil), io.EOF with data, early error, negative count), WriteTo(scripted writer: full, short write, error, over-count), Len, Bytes, String, ReWrite(pos,p) inside the unread bytes. The generator folds over a real bytes.Buffer and a prediction of the storage layout, so that sizes aim at the exact fit of the spare tail, one byte more, the largest request that still slides down, one more (reallocate) and the 64-byte small buffer; reads are followed by Unread*/Grow with raised probability. After every step results, error nil-ness and io.EOF identity, panic-or-not with equal string panic values and (Len, Bytes) of both buffers are compared. Unread* is skipped (and counted) while a Grow is the latest call that could have moved the data, ReWrite while consumed bytes precede the unread part. Non-trivial: the history exercised >= 2 different growth paths of tex.Buffer (reset-if-empty, reslice, small allocation, slide down, reallocate; classified from Cap() changes and consumed-byte bookkeeping) and >= 1 successful Unread*; distinct = distinct case JSON",
-	Quick: 10000, Thorough: 60000,
+	Quick: 30000, Thorough: 60000,
 	Gen: Gen, Exec: Exec,
 }
